@@ -347,8 +347,8 @@ PanicStep(X) == IsPressIn(X) /\ ~Swallowed(X) /\ ActionIn(X) /\ ActionOf(X) = "p
 
 C13_PanicOut(X) ==
   PanicStep(X) =>
-    /\ \E i \in 1..Len(X.o) : X.o[i] = CCMsg(X.pre.chan, AllNotesOff, 0)
-    /\ \A n \in 0..127 : \E i \in NoteOffs(X.o) : PairOf(X.o[i]) = <<X.pre.chan, n>>
+    /\ CCMsg(X.pre.chan, AllNotesOff, 0) \in {X.o[i] : i \in 1..Len(X.o)}
+    /\ {<<X.pre.chan, n>> : n \in 0..127} \subseteq {PairOf(X.o[i]) : i \in NoteOffs(X.o)}
     /\ NoteOns(X.o) = {}
     /\ \A i \in 1..Len(X.o) : IsOff(X.o[i]) \/ X.o[i] = CCMsg(X.pre.chan, AllNotesOff, 0)
 
